@@ -609,7 +609,8 @@ fn minimise(h: &History, class: &str, cfg: &Cfg, oracle: &Oracle, budget: usize)
 
 fn write_replay(cfg: &Cfg, subseed: u64, h: &History, rep: &RunReport, class: &str, minimised_attempts: usize) -> PathBuf {
     let _ = std::fs::create_dir_all(&cfg.replays);
-    let v = rep.violations.iter().find(|v| v.class == class).unwrap_or(&rep.violations[0]);
+    let fallback = Violation { class: class.to_string(), thread: 0, call: 0, expected: Value::Null, got: Value::Null, detail: "(violation details unavailable)".into() };
+    let v = rep.violations.iter().find(|v| v.class == class).or(rep.violations.first()).unwrap_or(&fallback);
     let path = cfg.replays.join(format!("{}-{}.json", PROP, subseed));
     let doc = json!({
         "property": PROP,
@@ -661,7 +662,7 @@ struct Agg {
     distinct_nontrivial: BTreeSet<String>,
     outcome_kinds: BTreeMap<String, u64>,
     samples: Vec<Value>,
-    violations: Vec<(u64, History, String)>,
+    violations: Vec<(u64, History, String, usize, usize)>,
     ref_crash_calls: u64,
     cross_process_comparisons: u64,
 }
@@ -800,7 +801,7 @@ fn absorb(agg: &mut Agg, subseed: u64, h: &History, rep: &RunReport, oracle: &Or
     }
     if let Some(v) = rep.violations.first() {
         if agg.violations.len() < 50 {
-            agg.violations.push((subseed, h.clone(), v.class.clone()));
+            agg.violations.push((subseed, h.clone(), v.class.clone(), v.thread, v.call));
         }
     }
 }
@@ -881,6 +882,18 @@ fn main() {
             }
             println!("VIOLATION property={} replay={}", PROP, file);
             std::process::exit(1);
+        }
+        if doc["flavour"] == "fresh-processes" {
+            let call = doc["plan"]["threads"][0][0].clone();
+            let outs: Vec<Out> = (0..8).map(|k| oracle.single(&call, k)).collect();
+            let distinct: BTreeSet<String> = outs.iter().map(|o| o.to_json().to_string()).collect();
+            if distinct.len() > 1 {
+                println!("replayed violation class=fresh-processes-disagree\n  8 fresh processes gave {} different results for the same call", distinct.len());
+                println!("VIOLATION property={} replay={}", PROP, file);
+                std::process::exit(1);
+            }
+            println!("replay: no violation (8 fresh processes agree on this call)");
+            std::process::exit(0);
         }
         if doc["flavour"] == "miri" {
             let threads: Vec<Vec<Value>> = doc["plan"]["threads"].as_array().map(|a| a.iter().map(|t| t.as_array().cloned().unwrap_or_default()).collect()).unwrap_or_default();
@@ -1073,9 +1086,10 @@ fn main() {
     let mut reported: Vec<(String, PathBuf)> = vec![];
     let mut known_hit: BTreeMap<String, u64> = BTreeMap::new();
     let mut classes_done: BTreeSet<String> = BTreeSet::new();
-    agg.violations.sort_by_key(|(_, h, _)| h.threads.iter().map(|t| t.len()).sum::<usize>());
+    agg.violations.sort_by_key(|(_, h, _, _, _)| h.threads.iter().map(|t| t.len()).sum::<usize>());
     let total_viol = agg.violations.len();
-    for (sub, h, class) in agg.violations.clone() {
+    let mut unstable_reported = false;
+    for (sub, h, class, vt, vc) in agg.violations.clone() {
         if let Some(f) = findings.iter().find(|f| f.status == "known" && f.signature == class) {
             *known_hit.entry(f.signature.clone()).or_default() += 1;
             continue;
@@ -1086,6 +1100,26 @@ fn main() {
         // confirm it reproduces before calling it a violation
         let again = run_and_check(&h, &cfg, &oracle, false);
         if !has_class(&again, &class) {
+            // Not reproducible from the plan: either the harness is at fault, or the call's outcome
+            // varies from process to process (which the third clause forbids). Decide by asking
+            // more fresh processes about that one call.
+            if unstable_reported {
+                continue;
+            }
+            if let Some(call) = h.threads.get(vt).and_then(|t| t.get(vc)) {
+                let outs: Vec<Out> = (0..8).map(|k| oracle.single(call, k)).collect();
+                let distinct: BTreeSet<String> = outs.iter().map(|o| o.to_json().to_string()).collect();
+                if distinct.len() > 1 {
+                    let _ = std::fs::create_dir_all(&cfg.replays);
+                    let path = cfg.replays.join(format!("{}-unstable-across-processes-{}.json", PROP, sub));
+                    let doc = json!({"property": PROP, "flavour": "fresh-processes", "violation": {"class": "fresh-processes-disagree", "detail": format!("the same call alone in 8 fresh processes gave {} different results", distinct.len()), "results": distinct}, "plan": {"threads": [[call]], "schedule": {"kind": "none"}, "faults": []}});
+                    let text = serde_json::to_string_pretty(&doc).unwrap().replace(&cfg.tree_root.display().to_string(), "${TREE}");
+                    std::fs::write(&path, text + "\n").unwrap();
+                    reported.push(("fresh-processes-disagree".into(), path));
+                    unstable_reported = true;
+                    continue;
+                }
+            }
             harness_errors.lock().unwrap().push(format!("violation class {} of sub-seed {} did not reproduce", class, sub));
             continue;
         }
@@ -1159,7 +1193,7 @@ fn main() {
         "rustc_end_to_end_stage": stage_json,
         "miri_instruction_level_batch": miri_json,
         "seam": if cfg.hooked.is_some() { "hooked build (--cfg graphql_client_verif)" } else { "unavailable: sequential histories on the guard-off build only" },
-        "violation_classes_seen": agg.violations.iter().map(|(_, _, c)| c.clone()).collect::<BTreeSet<_>>(),
+        "violation_classes_seen": agg.violations.iter().map(|(_, _, c, _, _)| c.clone()).collect::<BTreeSet<_>>(),
         "known_findings_matched": known_hit,
     });
     let assumptions = vec![
@@ -1187,8 +1221,9 @@ fn main() {
         let h = History { threads: vec![vec![call]], schedule: json!({"kind":"none"}), faults: vec![], flavour: "plain-seq", fault_focused: false, labels: vec![] };
         let _ = std::fs::create_dir_all(&cfg.replays);
         let path = cfg.replays.join(format!("{}-fresh-process-disagreement.json", PROP));
-        let doc = json!({"property": PROP, "violation": {"class": "fresh-processes-disagree", "detail": "the same call alone in two fresh processes gave different results"}, "flavour": "plain-seq", "plan": {"threads": h.threads, "schedule": h.schedule, "faults": []}});
-        std::fs::write(&path, serde_json::to_string_pretty(&doc).unwrap()).unwrap();
+        let doc = json!({"property": PROP, "violation": {"class": "fresh-processes-disagree", "detail": "the same call alone in two fresh processes gave different results"}, "flavour": "fresh-processes", "plan": {"threads": h.threads, "schedule": h.schedule, "faults": []}});
+        std::fs::write(&path, serde_json::to_string_pretty(&doc).unwrap().replace(&cfg.tree_root.display().to_string(), "${TREE}")).unwrap();
+        println!("violation class=fresh-processes-disagree");
         println!("VIOLATION property={} replay={}", PROP, path.display());
         std::process::exit(1);
     }
